@@ -39,6 +39,9 @@ CHECKS = {
     "C11": C("c11", dict(checks=6000, shards=2, timeout=300), dict(checks=60000, shards=16, timeout=3000),
              "property-based testing (rapid): round-trip (decode(encode(v)) == v and bytes read == bytes written) for every compact record codec, with generated primary namespaces and dirty decode targets",
              "Trusted: the normal-form comparison in harness/c11 (lists that Marshal sorts are compared sorted; nil and empty lists are equal). Values are within each codec's representable range (roles < 2^61, member types 0-3, namespaces < 8192, no reference with type+namespace 0)."),
+    "C12": C("c12", dict(checks=300, shards=4, timeout=600), dict(checks=10000, shards=16, timeout=6000),
+             "property-based testing (rapid), model-based: generated edit histories on MutableOverlayWorld compared step by step with a per-feature map of tags (lookup, Get, existence, ordered tag searches, enumeration)",
+             "Trusted: the per-feature map model. Replacements keep geometry and new features are points or relations, so every AddFeature is valid (rejections are C13's subject). Tag values are strings; geometry tags are not edited."),
     "C31": C("c31", dict(checks=4000, shards=2, timeout=300), dict(checks=40000, shards=16, timeout=3000),
              "property-based testing (rapid): round trips of generated feature IDs through every encoding, and order laws on generated triples with a differential against the compact index order",
              "Trusted: encoders/decoders of encoding/json, gopkg.in/yaml.v2 and protobuf. IDs in the postcode and ONS alias namespaces are restricted to values the packers produce (other values have no alias form). Namespaces exclude control characters."),
